@@ -169,6 +169,19 @@ let run (kind : string) (f : string array) : string =
     h enc ^ " " ^ h (encode_json_start_key tb) ^ " " ^ h (encode_json_stop_key tb) ^ " | "
     ^ res (fun (t, kk) -> h t ^ " " ^ h kk) (decode_json_key enc)
   | "DJK" -> res (fun (t, kk) -> h t ^ " " ^ h kk) (decode_json_key (uh f.(0)))
+  | "HK" ->
+    let tb = uh f.(0) and nm = uh f.(1) and v = z_of_hex f.(2) and sv = uh f.(3) and pk = uh f.(4) in
+    let stop = f.(5) = "1" in
+    let nk = encode_hset_index_number_key tb nm v pk stop and sk = encode_hset_index_string_key tb nm sv pk stop in
+    let pn (((t, n), v), p) = h t ^ " " ^ h n ^ " " ^ hex_of_z v ^ " " ^ h p
+    and ps (((t, n), v), p) = h t ^ " " ^ h n ^ " " ^ h v ^ " " ^ h p in
+    h nk ^ " " ^ h sk ^ " " ^ h (encode_hset_index_start_key tb nm) ^ " " ^ h (encode_hset_index_stop_key tb nm)
+    ^ " | " ^ res pn (decode_hset_index_number_key nk) ^ " | " ^ res ps (decode_hset_index_string_key sk)
+  | "DHK" ->
+    let raw = uh f.(0) in
+    let pn (((t, n), v), p) = h t ^ " " ^ h n ^ " " ^ hex_of_z v ^ " " ^ h p
+    and ps (((t, n), v), p) = h t ^ " " ^ h n ^ " " ^ h v ^ " " ^ h p in
+    res pn (decode_hset_index_number_key raw) ^ " | " ^ res ps (decode_hset_index_string_key raw)
   | "RD" ->
     let rt = dtn f.(0) and lo = uh f.(1) and hi = uh f.(2) in
     let keys = if f.(3) = "~" then [] else List.map uh (split_on ',' f.(3)) in
